@@ -128,6 +128,55 @@ def load (name : Name) : FindR → LoadR
 def loadFrom (fs : FS) (cwd : Path) (isAbs : Bool) (raw : List Name) (name : Name) : LoadR :=
   load name (find fs cwd isAbs raw name)
 
+/-! ### one `FilesystemLoader` OBJECT used several times (histories)
+
+    The object stores only what it was constructed with (`_start`: the `start` argument, else
+    `config.tasks.search_root`, possibly nothing).  The `start` property is `self._start or os.getcwd()`,
+    evaluated at every use: a loader without explicit start searches from the working directory current
+    AT THE TIME OF THE CALL.  The process state a call depends on is the working directory and the filesystem. -/
+
+structure LoaderObj where
+  start : Option (Bool × List Name)     -- explicit start: (`startswith("/")`, `split("/")`)
+
+/-- the `start` property read while the working directory is `cwd` (`os.getcwd()` is absolute and normal) -/
+def LoaderObj.startAt (l : LoaderObj) (cwd : Path) : Bool × List Name :=
+  match l.start with
+  | some s => s
+  | none => (true, [] :: cwd)
+
+/-- `loader.find(name)` / `loader.load(name)` called while the working directory is `cwd` -/
+def LoaderObj.findAt (l : LoaderObj) (fs : FS) (cwd : Path) (name : Name) : FindR :=
+  find fs cwd (l.startAt cwd).1 (l.startAt cwd).2 name
+
+def LoaderObj.loadAt (l : LoaderObj) (fs : FS) (cwd : Path) (name : Name) : LoadR :=
+  load name (l.findAt fs cwd name)
+
+structure World where
+  fs : FS
+  cwd : Path
+
+/-- what happens to / with one loader object over time -/
+inductive LStep where
+  | chdir (p : Path)         -- `os.chdir`
+  | setFs (fs : FS)          -- files appear / disappear
+  | load (name : Name)       -- `loader.load(name)` (or `find`)
+  | readStart                -- `loader.start` is read (e.g. by a debug line)
+
+/-- the process state after one step; using the loader changes nothing -/
+def LStep.after (w : World) : LStep → World
+  | .chdir p => { w with cwd := p }
+  | .setFs fs => { w with fs := fs }
+  | .load _ => w
+  | .readStart => w
+
+def worldAfter (w : World) (steps : List LStep) : World := steps.foldl LStep.after w
+
+/-- the answers of the `load` calls of a history on ONE loader object, in order -/
+def runLoader (l : LoaderObj) : World → List LStep → List LoadR
+  | _, [] => []
+  | w, .load name :: r => l.loadAt w.fs w.cwd name :: runLoader l w r
+  | w, s :: r => runLoader l (s.after w) r
+
 /-! ### a finite layout as a filesystem (used by the driver and the examples) -/
 
 abbrev Layout := List (Path × List Name)
